@@ -1608,6 +1608,9 @@ Definition suffix_hash (from : nat) (lo hi : N) : N :=
 Lemma fnv_step_mod hh x : fnv_step hh x = ((N.lxor hh x * 1099511628211) mod 2 ^ 64)%N.
 Proof. unfold fnv_step. change m64 with (N.ones 64). apply N.land_ones. Qed.
 
+(* the proofs never look inside the hash (vm_compute is unaffected) *)
+Global Opaque suffix_hash.
+
 Definition centry := (N * nat * N * N * nat)%type.   (* slot, key.from, key.start, key.end, val *)
 
 Fixpoint cache_slot (c : list centry) (slot : N) : option centry :=
@@ -1796,6 +1799,565 @@ Proof.
       * rewrite Ed. discriminate.
 Qed.
 
+(* ================================================================== dot is correct as built *)
+(* alternatives given by their entry states, all leading to the join epsilon J *)
+Section AltAbs.
+  Variable A : nfa.
+  Variable h : hay.
+  Variables lo hi J k : nat.
+
+  Definition alt_sound (t : nat) (L : hlang) : Prop :=
+    forall n i c2, i <= length h -> ipath A h lo hi n (t, i) c2 ->
+      exists j1 n2, L h i j1 /\ j1 <= length h /\ ipath A h lo hi n2 (J, j1) c2.
+  Definition alt_complete (t : nat) (L : hlang) : Prop :=
+    forall i j1, L h i j1 -> forall m c2, ipath A h lo hi m (J, j1) c2 -> exists n, ipath A h lo hi n (t, i) c2.
+
+  Variable alts : list (nat * hlang).
+  Variable base : nat.
+  Let ts := map fst alts.
+  Hypothesis Halts : forall t L, In (t, L) alts -> inr lo hi t /\ alt_sound t L /\ alt_complete t L.
+  Hypothesis Hne : alts <> [].
+  Hypothesis He : embeds A base (fst (split_chain ts base)).
+  Hypothesis Hlo : lo <= base.
+  Hypothesis Hhi : base + (length alts - 1) <= hi.
+  Hypothesis HJ : nth_error (states A) J = Some (SEpsilon k).
+  Hypothesis HJin : inr lo hi J.
+  Hypothesis Hk : ~ inr lo hi k.
+
+  Lemma abs_ts_ne : ts <> [].
+  Proof. unfold ts. destruct alts; [congruence|discriminate]. Qed.
+  Lemma abs_ts_in : forall t, In t ts -> inr lo hi t.
+  Proof. intros t Ht. unfold ts in Ht. apply in_map_iff in Ht as [[t' L] [<- Hin]]. now apply (Halts t' L). Qed.
+  Lemma abs_ts_len : length ts = length alts.
+  Proof. unfold ts. apply map_length. Qed.
+
+  Lemma alt_abs_sound n i c2 : i <= length h -> ipath A h lo hi n (snd (split_chain ts base), i) c2 ->
+    fst c2 = k /\ exists t L, In (t, L) alts /\ L h i (snd c2).
+  Proof.
+    intros Hi Hp.
+    destruct (chain_sound A h lo hi ts base abs_ts_ne He Hlo ltac:(rewrite abs_ts_len; exact Hhi) abs_ts_in) as [_ Hcs].
+    destruct (Hcs n i c2 Hp) as [t [n' [Ht [_ Hp']]]].
+    unfold ts in Ht. apply in_map_iff in Ht as [[t' L] [<- Hin]]. cbn [fst] in Hp'.
+    destruct (Halts t' L Hin) as [_ [Hs _]].
+    destruct (Hs n' i c2 Hi Hp') as [j1 [n2 [HL [Hj1 Hp2]]]].
+    apply ipath_inv in Hp2 as [st [c1 [Hst [Hc1 Hcase]]]]. cbn [fst snd] in Hst, Hc1.
+    rewrite HJ in Hst. inversion Hst; subst st. rewrite nexts_eps in Hc1. destruct Hc1 as [<-|[]].
+    destruct Hcase as [[_ [<- _]]|[Hin' _]]; [|contradiction].
+    cbn [fst snd]. split; [reflexivity|]. eauto.
+  Qed.
+
+  Lemma alt_abs_complete t L i j : In (t, L) alts -> L h i j ->
+    exists n, ipath A h lo hi n (snd (split_chain ts base), i) (k, j).
+  Proof.
+    intros Hin HL. destruct (Halts t L Hin) as [_ [_ Hc]].
+    assert (HpJ : ipath A h lo hi 1 (J, j) (k, j)).
+    { eapply ipath_step_out; [exact HJin|exact HJ|rewrite nexts_eps; now left|exact Hk]. }
+    destruct (Hc i j HL 1 (k, j) HpJ) as [n Hp].
+    apply (chain_complete A h lo hi ts base abs_ts_ne He Hlo ltac:(rewrite abs_ts_len; exact Hhi) abs_ts_in t) with (n := n); [|exact Hp].
+    unfold ts. apply in_map_iff. exists (t, L). auto.
+  Qed.
+End AltAbs.
+
+(* a chain of ByteRange states among the states `sts` placed at `base`, ending in endS *)
+Fixpoint is_chain (sts : list nstate) (base t : nat) (s : bseq) (endS : nat) : Prop :=
+  match s with
+  | [] => t = endS
+  | (l, hh) :: rest => exists t', base <= t /\ nth_error sts (t - base) = Some (SByteRange l hh t') /\
+                                  is_chain sts base t' rest endS
+  end.
+
+Lemma is_chain_ext sts more base endS s : forall t, is_chain sts base t s endS -> is_chain (sts ++ more) base t s endS.
+Proof.
+  induction s as [|[l hh] rest IH]; intros t H; cbn [is_chain] in *; [exact H|].
+  destruct H as [t' [Hb [Hn Hc]]]. exists t'. split; [exact Hb|]. split; [|now apply IH].
+  rewrite nth_error_app1; [exact Hn|]. apply nth_error_Some. congruence.
+Qed.
+
+Section ChainSem.
+  Variable A : nfa.
+  Variable h : hay.
+  Variables lo hi J base : nat.
+  Variable sts : list nstate.
+  Hypothesis Hemb : embeds A base sts.
+  Hypothesis Hlo : lo <= base.
+  Hypothesis Hhi : base + length sts <= hi.
+  Hypothesis HJin : inr lo hi J.
+
+  Lemma chain_head_in s t : is_chain sts base t s J -> inr lo hi t.
+  Proof.
+    destruct s as [|[l hh] rest]; cbn [is_chain]; [intros ->; exact HJin|].
+    intros [t' [Hb [Hn _]]]. apply nth_error_Some_lt' in Hn. unfold inr. lia.
+  Qed.
+
+  Lemma chain_alt_sound s : forall t, is_chain sts base t s J -> alt_sound A h lo hi J t (fun h => l_seq h s).
+  Proof.
+    induction s as [|[l hh] rest IH]; intros t Hc n i c2 Hi Hp; cbn [is_chain] in Hc.
+    - subst t. exists i, n. split; [split; auto|]. split; [exact Hi|exact Hp].
+    - destruct Hc as [t' [Hb [Hn Hc]]].
+      assert (HA : nth_error (states A) t = Some (SByteRange l hh t')).
+      { replace t with (base + (t - base)) by lia. now apply Hemb. }
+      apply ipath_inv in Hp as [st [c1 [Hst [Hc1 Hcase]]]]. cbn [fst snd] in Hst, Hc1.
+      rewrite HA in Hst. inversion Hst; subst st. rewrite nexts_byte in Hc1.
+      destruct (nth_error h i) as [b|] eqn:Eb; [|destruct Hc1].
+      destruct (in_range l hh b) eqn:Er; [|destruct Hc1]. destruct Hc1 as [<-|[]].
+      pose proof (chain_head_in rest t' Hc) as Hin'.
+      destruct Hcase as [[_ [_ Ho]]|[_ [m [-> Hp']]]]; [contradiction|].
+      pose proof (nth_error_Some_lt' _ _ _ Eb) as Hlt.
+      destruct (IH t' Hc m (S i) c2 ltac:(lia) Hp') as [j1 [n2 [HL [Hj1 Hp2]]]].
+      exists j1, n2. split; [|auto]. cbn [l_seq]. exists b. auto.
+  Qed.
+
+  Lemma chain_alt_complete s : forall t, is_chain sts base t s J -> alt_complete A h lo hi J t (fun h => l_seq h s).
+  Proof.
+    induction s as [|[l hh] rest IH]; intros t Hc i j1 HL m c2 Hp; cbn [is_chain] in Hc; cbn [l_seq] in HL.
+    - subst t. destruct HL as [-> _]. eauto.
+    - destruct Hc as [t' [Hb [Hn Hc]]]. destruct HL as [b [Eb [Er HL]]].
+      assert (HA : nth_error (states A) t = Some (SByteRange l hh t')).
+      { replace t with (base + (t - base)) by lia. now apply Hemb. }
+      destruct (IH t' Hc (S i) j1 HL m c2 Hp) as [n Hp'].
+      exists (S n). eapply ipath_step_in; [|exact HA| | |exact Hp'].
+      + apply nth_error_Some_lt' in Hn. unfold inr. lia.
+      + rewrite nexts_byte, Eb, Er. now left.
+      + cbn [fst]. now apply (chain_head_in rest).
+  Qed.
+End ChainSem.
+
+(* the invariant of the builder of compileUTF8Any *)
+Definition dinv (base endS : nat) (d : dstate) : Prop :=
+  let '(nid, rsts, c) := d in
+  nid = base + length rsts /\
+  (forall slot f l hh v, In (slot, f, l, hh, v) c ->
+     base <= v /\ nth_error (rev rsts) (v - base) = Some (SByteRange l hh f)) /\
+  (forall st, In st rsts -> exists l hh t, st = SByteRange l hh t /\ (l <= hh)%N /\ (hh < 256)%N /\
+                                         (t = endS \/ t < nid)).
+
+Definition dsts (d : dstate) : list nstate := rev (snd (fst d)).
+Definition dext (d d' : dstate) : Prop := exists more, dsts d' = dsts d ++ more.
+
+Lemma dext_refl d : dext d d.
+Proof. exists []. now rewrite app_nil_r. Qed.
+Lemma dext_trans d1 d2 d3 : dext d1 d2 -> dext d2 d3 -> dext d1 d3.
+Proof. intros [m1 H1] [m2 H2]. exists (m1 ++ m2). now rewrite H2, H1, app_assoc. Qed.
+
+Lemma cache_slot_in c slot e : cache_slot c slot = Some e -> In e c.
+Proof.
+  induction c as [|[[[[s f] l] hh] v] t IH]; cbn [cache_slot]; [discriminate|].
+  destruct (s =? slot)%N; [intros H; inversion H; now left|intros H; right; now apply IH].
+Qed.
+
+Lemma get_or_create_spec base endS d target l hh d' v :
+  dinv base endS d -> (l <= hh)%N -> (hh < 256)%N -> (target = endS \/ target < fst (fst d)) ->
+  get_or_create d target l hh = (d', v) ->
+  dinv base endS d' /\ dext d d' /\ base <= v < fst (fst d') /\
+  nth_error (dsts d') (v - base) = Some (SByteRange l hh target).
+Proof.
+  destruct d as [[nid rsts] c]. unfold dinv, get_or_create, dsts, dext. cbn [fst snd].
+  intros [Hn [Hc Hs]] Hl Hh Ht H.
+  destruct (cache_get c target l hh) as [v0|] eqn:Eg.
+  - inversion H; subst d' v. cbn [fst snd]. split; [auto|]. split; [exists []; now rewrite app_nil_r|].
+    unfold cache_get in Eg. destruct (cache_slot c (suffix_hash target l hh)) as [[[[[s f] l0] h0] v1]|] eqn:Es; [|discriminate].
+    destruct ((f =? target) && (l0 =? l)%N && (h0 =? hh)%N) eqn:Ek; [|discriminate]. inversion Eg; subst v1.
+    apply andb_prop in Ek as [Ek E3]. apply andb_prop in Ek as [E1 E2].
+    apply Nat.eqb_eq in E1. apply N.eqb_eq in E2, E3. subst f l0 h0.
+    apply cache_slot_in in Es. destruct (Hc _ _ _ _ _ Es) as [Hb Hnth]. split; [|exact Hnth].
+    apply nth_error_Some_lt' in Hnth. rewrite rev_length in Hnth. lia.
+  - inversion H; subst d' v. cbn [fst snd length rev]. split; [|split; [exists [SByteRange l hh target]; reflexivity|]].
+    + split; [lia|]. split.
+      * intros slot f l0 h0 v [Heq|Hin].
+        -- inversion Heq; subst. split; [lia|]. rewrite nth_error_app2 by (rewrite rev_length; lia).
+           rewrite rev_length. replace (base + length rsts - base - length rsts) with 0 by lia. reflexivity.
+        -- destruct (Hc _ _ _ _ _ Hin) as [Hb Hnth]. split; [exact Hb|].
+           rewrite nth_error_app1; [exact Hnth|]. apply nth_error_Some. congruence.
+      * intros st [<-|Hin].
+        -- exists l, hh, target. repeat split; auto. destruct Ht as [->|Ht]; [now left|right; lia].
+        -- destruct (Hs st Hin) as [l0 [h0 [t0 [-> [H1 [H2 H3]]]]]]. exists l0, h0, t0. repeat split; auto.
+           destruct H3 as [->|H3]; [now left|right; lia].
+    + split; [lia|]. rewrite nth_error_app2 by (rewrite rev_length; lia).
+      rewrite rev_length. replace (nid - base - length rsts) with 0 by lia. reflexivity.
+Qed.
+
+Definition gstep (dt : dstate * nat) (lh : N * N) : dstate * nat :=
+  get_or_create (fst dt) (snd dt) (fst lh) (snd lh).
+
+Lemma build_fold_spec base endS : forall rs d t done,
+  dinv base endS d -> bseq_ok rs -> (t = endS \/ t < fst (fst d)) ->
+  is_chain (dsts d) base t done endS ->
+  let r := fold_left gstep rs (d, t) in
+  dinv base endS (fst r) /\ dext d (fst r) /\
+  is_chain (dsts (fst r)) base (snd r) (rev rs ++ done) endS /\
+  (snd r = endS \/ snd r < fst (fst (fst r))).
+Proof.
+  induction rs as [|[l hh] rs IH]; intros d t done Hd Hok Ht Hc; cbv zeta; cbn [fold_left rev app].
+  - split; [exact Hd|]. split; [apply dext_refl|]. split; [exact Hc|exact Ht].
+  - inversion Hok as [|? ? [H1 H2] Hok']; subst. cbn [fst snd] in H1, H2.
+    change (gstep (d, t) (l, hh)) with (get_or_create d t l hh).
+    destruct (get_or_create d t l hh) as [d1 t1] eqn:Eg.
+    destruct (get_or_create_spec base endS d t l hh d1 t1 Hd H1 H2 Ht Eg) as [Hd1 [Hx1 [Hv Hn]]].
+    assert (Hc1 : is_chain (dsts d1) base t1 ((l, hh) :: done) endS).
+    { cbn [is_chain]. exists t. split; [lia|]. split; [exact Hn|].
+      destruct Hx1 as [more ->]. now apply is_chain_ext. }
+    pose proof (IH d1 t1 ((l, hh) :: done) Hd1 Hok' ltac:(right; lia) Hc1) as IH'. cbv zeta in IH'.
+    destruct IH' as [Hd2 [Hx2 [Hc2 Ht2]]].
+    split; [exact Hd2|]. split; [exact (dext_trans _ _ _ Hx1 Hx2)|]. split; [|exact Ht2].
+    rewrite <- app_assoc. exact Hc2.
+Qed.
+
+Lemma build_seq_spec base endS d s :
+  dinv base endS d -> bseq_ok s ->
+  let r := build_seq d endS s in
+  dinv base endS (fst r) /\ dext d (fst r) /\ is_chain (dsts (fst r)) base (snd r) s endS.
+Proof.
+  intros Hd Hok. unfold build_seq.
+  assert (Hrev : bseq_ok (rev s)).
+  { unfold bseq_ok in *. rewrite Forall_forall in *. intros x Hx. apply (Hok x). apply in_rev. exact Hx. }
+  pose proof (build_fold_spec base endS (rev s) d endS [] Hd Hrev (or_introl eq_refl) eq_refl) as Hf.
+  cbv zeta in Hf. destruct Hf as [H1 [H2 [H3 _]]].
+  rewrite rev_involutive, app_nil_r in H3.
+  change (fun dt lh => get_or_create (fst dt) (snd dt) (fst lh) (snd lh)) with gstep. cbv zeta. auto.
+Qed.
+
+Definition sstep (endS : nat) (ds : dstate * list nat) (s : bseq) : dstate * list nat :=
+  let '(d', t) := build_seq (fst ds) endS s in (d', snd ds ++ [t]).
+
+Lemma build_seqs_spec base endS : forall ss d acc ss0,
+  dinv base endS d -> Forall bseq_ok ss ->
+  Forall2 (fun t s => is_chain (dsts d) base t s endS) acc ss0 ->
+  let r := fold_left (sstep endS) ss (d, acc) in
+  dinv base endS (fst r) /\ dext d (fst r) /\
+  Forall2 (fun t s => is_chain (dsts (fst r)) base t s endS) (snd r) (ss0 ++ ss).
+Proof.
+  induction ss as [|s ss IH]; intros d acc ss0 Hd Hok Hacc; cbv zeta; cbn [fold_left].
+  - rewrite app_nil_r. split; [exact Hd|]. split; [apply dext_refl|exact Hacc].
+  - inversion Hok as [|? ? Hs Hok']; subst.
+    pose proof (build_seq_spec base endS d s Hd Hs) as Hb. cbv zeta in Hb. destruct Hb as [Hd1 [Hx1 Hc1]].
+    change (sstep endS (d, acc) s) with (let '(d', t) := build_seq d endS s in (d', acc ++ [t])).
+    destruct (build_seq d endS s) as [d1 t1]. cbn [fst snd] in *.
+    assert (Hacc1 : Forall2 (fun t s0 => is_chain (dsts d1) base t s0 endS) (acc ++ [t1]) (ss0 ++ [s])).
+    { apply Forall2_app; [|constructor; [exact Hc1|constructor]].
+      destruct Hx1 as [more Hm]. clear -Hacc Hm. induction Hacc as [|a b la lb Hab _ IHa]; constructor; [|exact IHa].
+      rewrite Hm. now apply is_chain_ext. }
+    pose proof (IH d1 (acc ++ [t1]) (ss0 ++ [s]) Hd1 Hok' Hacc1) as IH'. cbv zeta in IH'.
+    destruct IH' as [Hd2 [Hx2 Hc2]].
+    split; [exact Hd2|]. split; [exact (dext_trans _ _ _ Hx1 Hx2)|]. rewrite <- app_assoc in Hc2. exact Hc2.
+Qed.
+
+Lemma utf8_multibyte_ok : Forall bseq_ok utf8_multibyte.
+Proof.
+  assert (H : forallb bseq_okb utf8_multibyte = true) by reflexivity.
+  rewrite forallb_forall in H. apply Forall_forall. intros s Hs. apply bseq_okb_ok. now apply H.
+Qed.
+
+(* what any_build delivers *)
+Lemma any_build_spec nl lo sts nid starts : any_build nl lo = (sts, nid, starts) ->
+  nid = lo + 2 + length sts /\
+  Forall2 (fun t s => is_chain sts (lo + 2) t s lo) starts utf8_multibyte /\
+  (forall st, In st sts -> exists l hh t, st = SByteRange l hh t /\ (l <= hh)%N /\ (hh < 256)%N /\ (t = lo \/ t < nid)).
+Proof.
+  unfold any_build, build_seqs. intros H.
+  assert (Hd0 : dinv (lo + 2) lo (lo + 2, [], [])).
+  { cbn. split; [lia|]. split; [intros ? ? ? ? ? []|intros ? []]. }
+  pose proof (build_seqs_spec (lo + 2) lo utf8_multibyte (lo + 2, [], []) [] [] Hd0 utf8_multibyte_ok (Forall2_nil _)) as Hs.
+  cbv zeta in Hs. cbn [app] in Hs.
+  change (fun ds s => let '(d', t) := build_seq (fst ds) lo s in (d', snd ds ++ [t])) with (sstep lo) in H.
+  revert H Hs. destruct (fold_left (sstep lo) utf8_multibyte _) as [[[nid' rsts] c] starts']. intros H Hs.
+  cbv beta iota in H. injection H as <- <- <-. cbn [fst snd] in Hs. destruct Hs as [[Hn [_ Hst]] [_ Hc]].
+  unfold dsts in Hc. cbn [fst snd] in Hc. rewrite rev_length.
+  split; [exact Hn|]. split; [exact Hc|]. intros st Hin. apply in_rev in Hin. exact (Hst st Hin).
+Qed.
+
+(* one byte-consuming state that leads to J *)
+Lemma step_alt A h lo hi J t st trs :
+  nth_error (states A) t = Some st ->
+  (forall p, nexts h st p = match nth_error h p with
+                            | Some b => if in_any_range trs b then [(J, S p)] else []
+                            | None => [] end) ->
+  inr lo hi t -> inr lo hi J ->
+  alt_sound A h lo hi J t (l_one_of trs) /\ alt_complete A h lo hi J t (l_one_of trs).
+Proof.
+  intros HA Hn Ht HJ. split.
+  - intros n i c2 Hi Hp. apply ipath_inv in Hp as [st' [c1 [Hst [Hc1 Hcase]]]]. cbn [fst snd] in Hst, Hc1.
+    rewrite HA in Hst. inversion Hst; subst st'. rewrite Hn in Hc1.
+    destruct (nth_error h i) as [b|] eqn:Eb; [|destruct Hc1].
+    destruct (in_any_range trs b) eqn:Er; [|destruct Hc1]. destruct Hc1 as [<-|[]].
+    destruct Hcase as [[_ [_ Ho]]|[_ [m [-> Hp']]]]; [contradiction|].
+    pose proof (nth_error_Some_lt' _ _ _ Eb) as Hlt.
+    exists (S i), m. split; [|split; [lia|exact Hp']].
+    unfold in_any_range in Er. apply existsb_exists in Er as [[l hh] [Hin Hr]]. cbn [fst snd] in Hr.
+    exists (l, hh). split; [exact Hin|]. exists b. repeat split; auto.
+  - intros i j1 [[l hh] [Hin [b [Eb [Er [<- _]]]]]] m c2 Hp.
+    exists (S m). apply (ipath_step_in A h lo hi t i st (J, S i) m c2 Ht HA); [|exact HJ|exact Hp].
+    rewrite Hn, Eb. assert (E : in_any_range trs b = true) by (apply existsb_exists; exists (l, hh); auto).
+    rewrite E. now left.
+Qed.
+
+Definition ascii_trs (nl : bool) : list (N * N) := if nl then [(0, 127)]%N else [(0, 9); (11, 127)]%N.
+Definition invalid_trs : list (N * N) := [(128, 191); (192, 193); (245, 255)]%N.
+
+Lemma any_seqs_eq nl :
+  any_seqs nl = map (fun lh => [lh]) (ascii_trs nl) ++ utf8_multibyte ++ map (fun lh => [lh]) invalid_trs.
+Proof. destruct nl; reflexivity. Qed.
+
+Lemma nexts_any_ascii h nl J p :
+  nexts h (any_ascii nl J) p =
+  match nth_error h p with Some b => if in_any_range (ascii_trs nl) b then [(J, S p)] else [] | None => [] end.
+Proof.
+  destruct nl; cbn [any_ascii ascii_trs].
+  - rewrite nexts_byte. destruct (nth_error h p); [|reflexivity]. cbn [in_any_range existsb fst snd].
+    rewrite orb_false_r. reflexivity.
+  - change (SSparse [(0%N, 9%N, J); (11%N, 127%N, J)]) with (SSparse (map (fun lh => (fst lh, snd lh, J)) [(0, 9); (11, 127)]%N)).
+    rewrite nexts_sparse. destruct (nth_error h p); [|reflexivity]. rewrite sparse_next_same.
+    now destruct (in_any_range [(0, 9); (11, 127)]%N n).
+Qed.
+
+Lemma nexts_any_invalid h J p :
+  nexts h (any_invalid J) p =
+  match nth_error h p with Some b => if in_any_range invalid_trs b then [(J, S p)] else [] | None => [] end.
+Proof.
+  change (any_invalid J) with (SSparse (map (fun lh => (fst lh, snd lh, J)) invalid_trs)).
+  rewrite nexts_sparse. destruct (nth_error h p); [|reflexivity]. rewrite sparse_next_same.
+  now destruct (in_any_range invalid_trs n).
+Qed.
+
+Lemma map_fst_combine {X Y} (a : list X) (b : list Y) : length a = length b -> map fst (combine a b) = a.
+Proof. revert b. induction a as [|x a IH]; intros [|y b] H; cbn in *; try discriminate; [reflexivity|]. f_equal. apply IH. lia. Qed.
+
+Lemma Forall2_length' {X Y} (R : X -> Y -> Prop) a b : Forall2 R a b -> length a = length b.
+Proof. induction 1; cbn; congruence. Qed.
+
+Lemma Forall2_combine_in {X Y} (R : X -> Y -> Prop) a b x y : Forall2 R a b -> In (x, y) (combine a b) -> R x y.
+Proof.
+  induction 1 as [|x0 y0 a b H0 _ IH]; cbn [combine]; [intros []|]. intros [Heq|Hin]; [inversion Heq; now subst|auto].
+Qed.
+
+Lemma Forall2_in_r {X Y} (R : X -> Y -> Prop) a b y : Forall2 R a b -> In y b -> exists x, In (x, y) (combine a b).
+Proof.
+  induction 1 as [|x0 y0 a b H0 _ IH]; [intros []|]. intros [<-|Hin]; [exists x0; now left|].
+  destruct (IH Hin) as [x Hx]. exists x. now right.
+Qed.
+
+Definition any_lang (nl : bool) : hlang := fun h i j => exists s, In s (any_seqs nl) /\ l_seq h s i j.
+
+Lemma top_bound : forall ts base lo0, ts <> [] -> (forall t, In t ts -> lo0 <= t < base) ->
+  lo0 <= snd (split_chain ts base) < base + (length ts - 1) + (2 - length ts).
+Proof.
+  induction ts as [|t [|t2 rest] IH]; intros base lo0 Hn Hts; [congruence| |].
+  - cbn. specialize (Hts t (or_introl eq_refl)). lia.
+  - rewrite split_chain_cons2. cbn [snd]. rewrite split_chain_len. cbn [length].
+    specialize (Hts t (or_introl eq_refl)). lia.
+Qed.
+
+Global Opaque any_build.
+
+Definition any_alts (nl : bool) (lo nid : nat) (starts : list nat) : list (nat * hlang) :=
+  (lo + 1, l_one_of (ascii_trs nl)) ::
+  combine starts (map (fun s (h : hay) => l_seq h s) utf8_multibyte) ++ [(nid, l_one_of invalid_trs)].
+
+Lemma combine_chain_in sts base endS starts ss t (L : hlang) :
+  Forall2 (fun t s => is_chain sts base t s endS) starts ss ->
+  In (t, L) (combine starts (map (fun s (h : hay) => l_seq h s) ss)) ->
+  exists sq, L = (fun h => l_seq h sq) /\ In sq ss /\ is_chain sts base t sq endS.
+Proof.
+  induction 1 as [|x y a b Hxy _ IH]; cbn [map combine]; [intros []|].
+  intros [Heq|Hin].
+  - inversion Heq; subst. exists y. split; [reflexivity|]. split; [now left|exact Hxy].
+  - destruct (IH Hin) as [sq [H1 [H2 H3]]]. exists sq. split; [exact H1|]. split; [now right|exact H3].
+Qed.
+
+Lemma combine_chain_pick sts base endS starts ss sq :
+  Forall2 (fun t s => is_chain sts base t s endS) starts ss -> In sq ss ->
+  exists t, In (t, (fun h : hay => l_seq h sq)) (combine starts (map (fun s (h : hay) => l_seq h s) ss)).
+Proof.
+  induction 1 as [|x y a b Hxy _ IH]; [intros []|]. cbn [map combine]. intros [<-|Hin].
+  - exists x. now left.
+  - destruct (IH Hin) as [t Ht]. exists t. now right.
+Qed.
+
+Lemma starts_bound sts lo nid starts :
+  Forall2 (fun t s => is_chain sts (lo + 2) t s lo) starts utf8_multibyte -> nid = lo + 2 + length sts ->
+  forall t, In t starts -> lo + 2 <= t < nid.
+Proof.
+  intros Hc Hn t Ht.
+  assert (Hex : exists sq, In sq utf8_multibyte /\ is_chain sts (lo + 2) t sq lo).
+  { clear -Hc Ht. induction Hc as [|x y a b Hxy _ IH]; [destruct Ht|]. destruct Ht as [<-|Ht].
+    - exists y. split; [now left|exact Hxy].
+    - destruct (IH Ht) as [sq [H1 H2]]. exists sq. split; [now right|exact H2]. }
+  destruct Hex as [sq [Hsq Hch]].
+  assert (Hne : sq <> []).
+  { intros ->. revert Hsq. clear. cbn. intros H. repeat (destruct H as [H|H]; [discriminate|]). exact H. }
+  destruct sq as [|[l hh] rest]; [congruence|]. cbn [is_chain] in Hch.
+  destruct Hch as [t' [Hb [Hnth _]]]. apply nth_error_Some_lt' in Hnth. lia.
+Qed.
+
+(* the facts about an automaton that contains the states of dot *)
+Lemma any_setup A h nl lo k sts nid starts :
+  any_build nl lo = (sts, nid, starts) ->
+  embeds A lo ([SEpsilon k; any_ascii nl lo] ++ sts ++ [any_invalid lo] ++
+               fst (split_chain ((lo + 1) :: starts ++ [nid]) (S nid))) ->
+  let hi := lo + (nid + 1 - lo + (length ((lo + 1) :: starts ++ [nid]) - 1)) in
+  let alts := any_alts nl lo nid starts in
+  map fst alts = (lo + 1) :: starts ++ [nid] /\
+  length alts = 10 /\ lo + 2 <= nid /\ hi = nid + 10 /\
+  nth_error (states A) lo = Some (SEpsilon k) /\
+  embeds A (S nid) (fst (split_chain (map fst alts) (S nid))) /\
+  (forall t L, In (t, L) alts -> inr lo hi t /\ alt_sound A h lo hi lo t L /\ alt_complete A h lo hi lo t L) /\
+  Forall2 (fun t s => is_chain sts (lo + 2) t s lo) starts utf8_multibyte.
+Proof.
+  intros E He hi alts.
+  destruct (any_build_spec nl lo sts nid starts E) as [Hn [Hc _]].
+  assert (Hl : length starts = 8) by (rewrite (Forall2_length' _ _ _ Hc); reflexivity).
+  apply embeds_cons in He as [HJ He]. apply embeds_cons in He as [Hasc He].
+  apply embeds_app in He as [Hsts He]. apply embeds_cons in He as [Hinv Hchain].
+  replace (S (S lo)) with (lo + 2) in * by lia. rewrite <- Hn in Hinv, Hchain.
+  replace (S lo) with (lo + 1) in Hasc by lia.
+  assert (Hhi : hi = nid + 10).
+  { unfold hi. cbn [length]. rewrite app_length. cbn [length]. lia. }
+  assert (Hfst : map fst alts = (lo + 1) :: starts ++ [nid]).
+  { unfold alts, any_alts. cbn [map fst]. rewrite map_app, map_fst_combine by (rewrite map_length, Hl; reflexivity). reflexivity. }
+  assert (Hlen : length alts = 10).
+  { rewrite <- (map_length fst), Hfst. cbn [length]. rewrite app_length. cbn [length]. lia. }
+  assert (HJin : inr lo hi lo) by (unfold inr; lia).
+  split; [exact Hfst|]. split; [exact Hlen|]. split; [lia|]. split; [exact Hhi|]. split; [exact HJ|].
+  split; [rewrite Hfst; exact Hchain|]. split; [|exact Hc].
+  intros t L [Heq|Hin].
+  - inversion Heq; subst t L. split; [unfold inr; lia|].
+    apply (step_alt A h lo hi lo (lo + 1) _ _ Hasc (nexts_any_ascii h nl lo)); [unfold inr; lia|exact HJin].
+  - apply in_app_or in Hin as [Hin|[Heq|[]]].
+    + destruct (combine_chain_in _ _ _ _ _ _ _ Hc Hin) as [sq [-> [_ Hch]]].
+      split; [apply (chain_head_in lo hi lo (lo + 2) sts ltac:(lia) ltac:(lia) HJin sq t Hch)|].
+      split; [apply (chain_alt_sound A h lo hi lo (lo + 2) sts Hsts ltac:(lia) ltac:(lia) HJin sq t Hch)|
+              apply (chain_alt_complete A h lo hi lo (lo + 2) sts Hsts ltac:(lia) ltac:(lia) HJin sq t Hch)].
+    + inversion Heq; subst t L. split; [unfold inr; lia|].
+      apply (step_alt A h lo hi lo nid _ _ Hinv (nexts_any_invalid h lo)); [unfold inr; lia|exact HJin].
+Qed.
+
+Lemma p_any_len nl lo k : length (pstates (p_any nl) lo k) = psize (p_any nl) lo.
+Proof.
+  cbn [p_any psize pstart pstates]. revert lo k.
+  intros lo k. unfold any_branches. destruct (any_build nl lo) as [[sts nid] starts] eqn:E.
+    destruct (any_build_spec nl lo sts nid starts E) as [Hn _].
+    rewrite !app_length, split_chain_len. cbn [length]. rewrite !app_length. cbn [length]. lia.
+Qed.
+
+Lemma p_any_start nl lo : lo <= pstart (p_any nl) lo < lo + psize (p_any nl) lo.
+Proof.
+  cbn [p_any psize pstart pstates]. revert lo.
+  intros lo. unfold any_branches. destruct (any_build nl lo) as [[sts nid] starts] eqn:E.
+    destruct (any_build_spec nl lo sts nid starts E) as [Hn [Hc _]].
+    pose proof (starts_bound sts lo nid starts Hc Hn) as Hsb.
+    assert (Hst : forall t, In t ((lo + 1) :: starts ++ [nid]) -> lo <= t < S nid).
+    { intros t [<-|Ht]; [lia|]. apply in_app_or in Ht as [Ht|[<-|[]]]; [specialize (Hsb t Ht)|]; lia. }
+    pose proof (top_bound ((lo + 1) :: starts ++ [nid]) (S nid) lo ltac:(discriminate) Hst) as Htop.
+    assert (Hl : length starts = 8) by (rewrite (Forall2_length' _ _ _ Hc); reflexivity).
+    cbn [length] in *. rewrite app_length in *. cbn [length] in *. lia.
+Qed.
+
+Lemma p_any_sound nl A h lo k n i c2 :
+  embeds A lo (pstates (p_any nl) lo k) -> ~ inr lo (lo + psize (p_any nl) lo) k -> i <= length h ->
+  ipath A h lo (lo + psize (p_any nl) lo) n (pstart (p_any nl) lo, i) c2 -> fst c2 = k /\ any_lang nl h i (snd c2).
+Proof.
+  cbn [p_any psize pstart pstates]. revert A h lo k n i c2.
+  intros A h lo k n i c2 He Hk Hi Hp. unfold any_branches in *.
+    destruct (any_build nl lo) as [[sts nid] starts] eqn:E.
+    pose proof (any_setup A h nl lo k sts nid starts E He) as Hset. cbv zeta in Hset.
+    set (hi := lo + (nid + 1 - lo + (length ((lo + 1) :: starts ++ [nid]) - 1))) in *.
+    destruct Hset as [Hfst [Hlen [Hnid [Hhi [HJ [Hchain [Halts Hc]]]]]]].
+    rewrite <- Hfst in Hp.
+    destruct (alt_abs_sound A h lo hi lo k (any_alts nl lo nid starts) (S nid) Halts
+                ltac:(discriminate) Hchain ltac:(lia) ltac:(lia) HJ Hk n i c2 Hi Hp) as [Hq [t [L [Hin HL]]]].
+    split; [exact Hq|]. unfold any_lang. rewrite any_seqs_eq.
+    destruct Hin as [Heq|Hin].
+    + inversion Heq; subst t L. destruct HL as [lh [Hlh Hm]]. exists [lh]. split; [|exact Hm].
+      apply in_or_app. left. apply in_map_iff. eauto.
+    + apply in_app_or in Hin as [Hin|[Heq|[]]].
+      * destruct (combine_chain_in _ _ _ _ _ _ _ Hc Hin) as [sq [-> [Hsq _]]]. exists sq. split; [|exact HL].
+        apply in_or_app. right. apply in_or_app. now left.
+      * inversion Heq; subst t L. destruct HL as [lh [Hlh Hm]]. exists [lh]. split; [|exact Hm].
+        apply in_or_app. right. apply in_or_app. right. apply in_map_iff. eauto.
+Qed.
+
+Lemma p_any_complete nl A h lo k i j :
+  embeds A lo (pstates (p_any nl) lo k) -> ~ inr lo (lo + psize (p_any nl) lo) k ->
+  any_lang nl h i j -> exists n, ipath A h lo (lo + psize (p_any nl) lo) n (pstart (p_any nl) lo, i) (k, j).
+Proof.
+  cbn [p_any psize pstart pstates]. revert A h lo k i j.
+  intros A h lo k i j He Hk HL. unfold any_branches in *.
+    destruct (any_build nl lo) as [[sts nid] starts] eqn:E.
+    pose proof (any_setup A h nl lo k sts nid starts E He) as Hset. cbv zeta in Hset.
+    set (hi := lo + (nid + 1 - lo + (length ((lo + 1) :: starts ++ [nid]) - 1))) in *.
+    destruct Hset as [Hfst [Hlen [Hnid [Hhi [HJ [Hchain [Halts Hc]]]]]]].
+    rewrite <- Hfst.
+    destruct HL as [s [Hs Hm]]. rewrite any_seqs_eq in Hs.
+    assert (Hpick : exists t L, In (t, L) (any_alts nl lo nid starts) /\ L h i j).
+    { unfold any_alts. apply in_app_or in Hs as [Hs|Hs]; [|apply in_app_or in Hs as [Hs|Hs]].
+      - apply in_map_iff in Hs as [lh [<- Hlh]]. exists (lo + 1), (l_one_of (ascii_trs nl)). split; [now left|].
+        exists lh. auto.
+      - destruct (combine_chain_pick _ _ _ _ _ s Hc Hs) as [t Ht]. exists t, (fun h => l_seq h s). split; [|exact Hm].
+        right. apply in_or_app. now left.
+      - apply in_map_iff in Hs as [lh [<- Hlh]]. exists nid, (l_one_of invalid_trs). split; [|exists lh; auto].
+        right. apply in_or_app. right. now left. }
+    destruct Hpick as [t [L [Hin HLt]]].
+    apply (alt_abs_complete A h lo hi lo k (any_alts nl lo nid starts) (S nid) Halts ltac:(discriminate) Hchain
+             ltac:(lia) ltac:(lia) HJ ltac:(unfold inr; lia) Hk t L i j Hin HLt).
+Qed.
+
+Theorem p_any_ok nl : piece_ok (p_any nl) (any_lang nl).
+Proof.
+  constructor.
+  - apply p_any_len.
+  - apply p_any_start.
+  - intros h i j [s [_ Hm]]. apply l_seq_slice in Hm. lia.
+  - apply p_any_sound.
+  - apply p_any_complete.
+Qed.
+
+Lemma st_ok_sparse_same N nc trs J : J < N -> ranges_sorted None trs = true ->
+  st_ok N nc (SSparse (map (fun lh => (fst lh, snd lh, J)) trs)) = true.
+Proof.
+  intros HJ Hs. unfold st_ok. cbn [state_ok is_match_state negb]. now rewrite (sparse_ok_same N J trs HJ None Hs).
+Qed.
+
+Theorem p_any_wf nc nl : piece_wf nc (p_any nl).
+Proof.
+  intros lo k N HN Hk. cbn [p_any psize pstates] in *. unfold any_branches in *.
+  destruct (any_build nl lo) as [[sts nid] starts] eqn:E.
+  destruct (any_build_spec nl lo sts nid starts E) as [Hn [Hc Hst]].
+  assert (Hl := Forall2_length' _ _ _ Hc).
+  cbn [length] in HN. rewrite app_length in HN. cbn [length] in HN.
+  assert (HnidN : S nid < N).
+  { assert (length starts = 8) by (rewrite Hl; reflexivity). lia. }
+  cbn [app forallb]. rewrite !forallb_app'. cbn [forallb].
+  rewrite st_ok_eps by exact Hk.
+  assert (Hasc : st_ok N nc (any_ascii nl lo) = true).
+  { destruct nl; cbn [any_ascii].
+    - unfold st_ok. cbn [state_ok is_match_state negb]. assert (E1 : (lo <? N) = true) by (apply Nat.ltb_lt; lia).
+      now rewrite E1.
+    - apply (st_ok_sparse_same N nc [(0, 9); (11, 127)]%N lo); [lia|reflexivity]. }
+  rewrite Hasc.
+  assert (Hinv : st_ok N nc (any_invalid lo) = true).
+  { apply (st_ok_sparse_same N nc invalid_trs lo); [lia|reflexivity]. }
+  rewrite Hinv.
+  assert (Hs : forallb (st_ok N nc) sts = true).
+  { apply forallb_forall. intros st Hin. destruct (Hst st Hin) as [l [hh [t [-> [H1 [H2 H3]]]]]].
+    unfold st_ok. cbn [state_ok is_match_state negb].
+    apply N.leb_le in H1. apply N.ltb_lt in H2. rewrite H1, H2.
+    assert (E1 : (t <? N) = true) by (apply Nat.ltb_lt; destruct H3; lia). now rewrite E1. }
+  rewrite Hs.
+  assert (Hbr : forall t, In t ((lo + 1) :: starts ++ [nid]) -> t < N).
+  { intros t [<-|Ht]; [lia|]. apply in_app_or in Ht as [Ht|[<-|[]]]; [|lia].
+    apply In_nth_error in Ht as [idx Hidx].
+    destruct (nth_error utf8_multibyte idx) as [sq|] eqn:Es.
+    2:{ apply nth_error_None in Es. apply nth_error_Some_lt' in Hidx. lia. }
+    assert (Hch : is_chain sts (lo + 2) t sq lo).
+    { clear -Hc Hidx Es. revert idx Hidx Es. induction Hc as [|x y a b Hxy _ IH]; intros [|idx] H1 H2; cbn in *; try discriminate.
+      - inversion H1; inversion H2; now subst.
+      - eauto. }
+    destruct sq as [|[l hh] rest]; cbn [is_chain] in Hch; [lia|].
+    destruct Hch as [t' [Hb [Hnth _]]]. apply nth_error_Some_lt' in Hnth. lia. }
+  destruct (chain_wf N nc ((lo + 1) :: starts ++ [nid]) (S nid) Hbr
+              ltac:(cbn [length]; rewrite app_length; cbn [length]; lia)) as [-> _].
+  reflexivity.
+Qed.
+
 (* ================================================================== the compiler *)
 (* nfa/compile.go: canMatchEmpty *)
 Fixpoint can_empty (r : re) : bool :=
@@ -1894,14 +2456,6 @@ Fixpoint re_ok (r : re) : bool :=
   | RAlt rs => negb (match rs with [] => true | _ => false end) && forallb re_ok rs
   | RStar _ r | RPlus _ r | RQuest _ r | RCap _ r => re_ok r
   | RRepeat _ mn mx r => (match mx with None => true | Some m => mn <=? m end) && re_ok r
-  | _ => true
-  end.
-
-Fixpoint no_dot (r : re) : bool :=
-  match r with
-  | RAnyChar | RAnyCharNotNL => false
-  | RCat rs | RAlt rs => forallb no_dot rs
-  | RStar _ r | RPlus _ r | RQuest _ r | RCap _ r | RRepeat _ _ _ r => no_dot r
   | _ => true
   end.
 
@@ -2108,19 +2662,20 @@ Qed.
 Lemma forallb_In {T} (f : T -> bool) l x : forallb f l = true -> In x l -> f x = true.
 Proof. intros H Hx. rewrite forallb_forall in H. auto. Qed.
 
-Theorem cpiece_ok r : re_ok r = true -> no_dot r = true ->
-  piece_ok (cpiece r) (fun h => re_lang code_atoms h r).
+Theorem cpiece_ok r : re_ok r = true -> piece_ok (cpiece r) (fun h => re_lang code_atoms h r).
 Proof.
-  induction r using re_ind'; cbn [re_ok no_dot cpiece re_lang]; intros Hok Hnd; try discriminate.
+  induction r using re_ind'; cbn [re_ok cpiece re_lang]; intros Hok.
   - exact p_eps_ok.
   - apply (p_cat_ok item_piece (fun it h => l_bytes h (item_bytes it))). intros it _. apply item_piece_ok.
   - eapply piece_ok_lang; [|apply (p_class_ok ranges Hok)]. intros h i j. apply l_seqs_bytes.
+  - eapply piece_ok_lang; [|apply (p_any_ok true)]. intros h i j. apply l_seqs_bytes.
+  - eapply piece_ok_lang; [|apply (p_any_ok false)]. intros h i j. apply l_seqs_bytes.
   - apply (p_cat_ok cpiece (fun r h => re_lang code_atoms h r)). intros x Hx.
-    rewrite Forall_forall in H. apply (H x Hx); eapply forallb_In; eauto.
+    rewrite Forall_forall in H. apply (H x Hx). eapply forallb_In; eauto.
   - apply andb_prop in Hok as [Hne Hok].
     eapply piece_ok_lang; [|apply (p_alt_ok cpiece (fun r h => re_lang code_atoms h r) rs)].
     + intros h i j. symmetry. apply (m_alt code_atoms h rs i j).
-    + intros x Hx. rewrite Forall_forall in H. apply (H x Hx); eapply forallb_In; eauto.
+    + intros x Hx. rewrite Forall_forall in H. apply (H x Hx). eapply forallb_In; eauto.
     + intros ->. discriminate.
   - apply p_star_ok. auto.
   - apply p_plus_ok. auto.
@@ -2134,22 +2689,23 @@ Qed.
 Lemma max_cap_in rs x : In x rs -> max_cap x <= fold_right (fun x acc => Nat.max (max_cap x) acc) 0 rs.
 Proof. induction rs as [|y t IH]; intros Hin; [destruct Hin|]. destruct Hin as [<-|Hx]; cbn [fold_right]; [lia|specialize (IH Hx); lia]. Qed.
 
-Theorem cpiece_wf r : forall nc, re_ok r = true -> no_dot r = true -> max_cap r < nc ->
-  piece_wf nc (cpiece r).
+Theorem cpiece_wf r : forall nc, re_ok r = true -> max_cap r < nc -> piece_wf nc (cpiece r).
 Proof.
-  induction r using re_ind'; cbn [re_ok no_dot cpiece max_cap]; intros nc Hok Hnd Hnc; try discriminate.
+  induction r using re_ind'; cbn [re_ok cpiece max_cap]; intros nc Hok Hnc.
   - apply p_eps_wf.
   - apply (p_cat_wf nc item_piece (fun it h => l_bytes h (item_bytes it))).
     + intros it _. apply item_piece_ok.
     + intros it Hit. apply item_piece_wf. eapply (forallb_In _ _ it Hok Hit).
   - now apply p_class_wf.
+  - apply p_any_wf.
+  - apply p_any_wf.
   - rewrite Forall_forall in H. apply (p_cat_wf nc cpiece (fun r h => re_lang code_atoms h r)).
-    + intros x Hx. apply cpiece_ok; eapply forallb_In; eauto.
-    + intros x Hx. apply (H x Hx); try (eapply forallb_In; eauto). pose proof (max_cap_in rs x Hx). lia.
+    + intros x Hx. apply cpiece_ok. eapply forallb_In; eauto.
+    + intros x Hx. apply (H x Hx); [eapply forallb_In; eauto|]. pose proof (max_cap_in rs x Hx). lia.
   - apply andb_prop in Hok as [Hne Hok]. rewrite Forall_forall in H.
     apply (p_alt_wf nc cpiece (fun r h => re_lang code_atoms h r)).
-    + intros x Hx. apply cpiece_ok; eapply forallb_In; eauto.
-    + intros x Hx. apply (H x Hx); try (eapply forallb_In; eauto). pose proof (max_cap_in rs x Hx). lia.
+    + intros x Hx. apply cpiece_ok. eapply forallb_In; eauto.
+    + intros x Hx. apply (H x Hx); [eapply forallb_In; eauto|]. pose proof (max_cap_in rs x Hx). lia.
     + intros ->. discriminate.
   - eapply p_star_wf; [apply cpiece_ok|]; auto.
   - eapply p_plus_wf; [apply cpiece_ok|]; auto.
@@ -2163,7 +2719,6 @@ Qed.
 Section Top.
   Variable r : re.
   Hypothesis Hok : re_ok r = true.
-  Hypothesis Hnd : no_dot r = true.
 
   Let p := cpiece r.
   Let n := psize p 0.
@@ -2181,7 +2736,7 @@ Section Top.
   Proof. unfold A, compile. now destruct (is_anchored r). Qed.
 
   Lemma body_len : length (pstates p 0 n) = n.
-  Proof. apply (pk_len _ _ (cpiece_ok r Hok Hnd)). Qed.
+  Proof. apply (pk_len _ _ (cpiece_ok r Hok)). Qed.
 
   Lemma compile_embeds : embeds A 0 (pstates p 0 n).
   Proof.
@@ -2196,7 +2751,7 @@ Section Top.
   Qed.
 
   Lemma body_wf N : n < N -> forallb (st_ok N (max_cap r + 1)) (pstates p 0 n) = true.
-  Proof. intros HN. apply (cpiece_wf r (max_cap r + 1) Hok Hnd ltac:(lia) 0 n N); fold p; fold n; lia. Qed.
+  Proof. intros HN. apply (cpiece_wf r (max_cap r + 1) Hok ltac:(lia) 0 n N); fold p; fold n; lia. Qed.
 
   Lemma accepting_is_n q : nth_error (states A) q = Some SMatch -> q = n.
   Proof.
@@ -2213,7 +2768,7 @@ Section Top.
   Theorem compile_wf : wf_nfa (compile r) = true.
   Proof.
     fold A. unfold wf_nfa, nstates. rewrite compile_states, app_length, body_len, forallb_app'.
-    pose proof (pk_start _ _ (cpiece_ok r Hok Hnd) 0) as Hs. fold p in Hs. fold n in Hs.
+    pose proof (pk_start _ _ (cpiece_ok r Hok) 0) as Hs. fold p in Hs. fold n in Hs.
     assert (Hb : forall N, n < N -> forallb (state_ok N (ncaps A)) (pstates p 0 n) = true).
     { intros N HN. rewrite compile_ncaps. pose proof (body_wf N HN) as Hb. rewrite forallb_forall in *.
       intros x Hx. specialize (Hb x Hx). unfold st_ok in Hb. now apply andb_prop in Hb as [Hb _]. }
@@ -2242,7 +2797,7 @@ Section Top.
   Proof.
     fold A. rewrite compile_start. intros Hi [q' [Hr Ha]]. unfold accepting in Ha. cbn [fst] in Ha.
     apply accepting_is_n in Ha. subst q'.
-    pose proof (cpiece_ok r Hok Hnd) as Hp. fold p in Hp.
+    pose proof (cpiece_ok r Hok) as Hp. fold p in Hp.
     pose proof (pk_start _ _ Hp 0) as Hs. fold n in Hs.
     destruct (reach_ipath A h 0 n _ _ Hr ltac:(cbn [fst]; unfold inr; lia) ltac:(cbn [fst]; unfold inr; lia))
       as [m [c1 [Hip Hr1]]].
@@ -2255,7 +2810,7 @@ Section Top.
     re_match code_atoms r h i j -> nfa_path (compile r) h (start_anch (compile r)) i j.
   Proof.
     fold A. rewrite compile_start. intros Hm.
-    pose proof (cpiece_ok r Hok Hnd) as Hp. fold p in Hp.
+    pose proof (cpiece_ok r Hok) as Hp. fold p in Hp.
     destruct (pk_complete _ _ Hp A h 0 n i j compile_embeds ltac:(unfold inr; fold n; lia) Hm) as [m Hip].
     exists n. split; [eapply ipath_reach; exact Hip|]. unfold accepting. cbn [fst]. exact compile_match_state.
   Qed.
@@ -2416,11 +2971,11 @@ Definition mismatch_kinds (cs : list case) : list (N * N) :=
 
 (* what a passing case establishes, by the theorems above: the automaton the real compiler
    built for this pattern is the model's, hence denotes the pattern *)
-Theorem check_case_sound c : check_case c = true -> no_dot (c_re c) = true ->
+Theorem check_case_sound c : check_case c = true ->
   wf_nfa (c_nfa c) = true /\
   forall h, (is_match_ref (c_nfa c) h = Done true <-> exists i j, re_match code_atoms (c_re c) h i j).
 Proof.
-  unfold check_case, case_verdict. intros H Hnd.
+  unfold check_case, case_verdict. intros H.
   destruct (re_ok (c_re c)) eqn:Hok; [|discriminate]. cbn [negb] in H.
   destruct (nfa_eqb (compile (c_re c)) (c_nfa c)) eqn:He; [|discriminate].
   apply nfa_eqb_eq in He. rewrite <- He. split; [now apply compile_wf|]. intros h. now apply compile_is_match.
